@@ -25,6 +25,10 @@ type area struct {
 
 var areas = map[string]*area{}
 
+// genSeed is the seed of the running `gen` call: the check runs one generator per shard with seeds
+// <run seed>*1000 + <shard>; systematic (non-random) sweeps are emitted by shard 0 only.
+var genSeed int64
+
 func register(name string, a *area) { areas[name] = a }
 
 func safeEval(a *area, op string, args []string) (ans string) {
@@ -74,6 +78,7 @@ func main() {
 		}
 		seed := int64(atoi(os.Args[3]))
 		count := atoi(os.Args[4])
+		genSeed = seed
 		r := rand.New(rand.NewSource(seed))
 		a.gen(r, count, func(op string, args ...string) {
 			ans := safeEval(a, op, args)
